@@ -77,6 +77,11 @@ func NewRevocationStoreFromBytes(r io.Reader) (*RevocationStore, error) {
 		return nil, err
 	}
 
+	if int(store.lenBuckets) > len(store.buckets) {
+		return nil, fmt.Errorf("invalid number of shachain buckets: "+
+			"%v, max %v", store.lenBuckets, len(store.buckets))
+	}
+
 	for i := uint8(0); i < store.lenBuckets; i++ {
 		var hashIndex index
 		err := binary.Read(r, binary.BigEndian, &hashIndex)
